@@ -129,6 +129,10 @@ func drawArbCase(t *rapid.T, grid func(*rapid.T) gen.GridSpec, maxIDs, maxLen in
 	c.IDs = gen.IDs(t, g, maxIDs, maxAddressableID(g))
 	c.Flags = gen.DrawFlags(t)
 	c.Flags.Ignore = false
+	if rapid.IntRange(0, 80).Draw(t, "noRings") == 41 { // POLYGON EMPTY: a polygon without any ring (GeoPackages hold them)
+		c.Shape, c.Poly, c.Anchor = "no-rings", [][][2]float64{}, "none"
+		return c
+	}
 	rings, kinds := drawArbRings(t, maxLen)
 	c.Shape = kinds
 	c.Poly, c.Anchor = placeArb(t, g, c.IDs, rings)
